@@ -19,7 +19,7 @@ const VOID_JUDGED: &[&str] = &["area", "base", "br", "col", "embed", "hr", "img"
 const VOID_LEGACY: &[&str] = &["keygen", "param", "basefont", "frame", "isindex", "command"];
 const HTML_NAMES: &[&str] = &[
     "html", "head", "title", "body", "div", "p", "span", "a", "em", "B", "ul", "li", "table", "tr", "td", "pre", "textarea", "br", "BR", "img", "hr", "input", "meta",
-    "Link", "foo", "x-y", "section", "Div", "param", "h1", "option", "select",
+    "Link", "foo", "x-y", "section", "Div", "param", "h1", "option", "select", "xmp", "iframe", "noembed", "noframes", "plaintext", "noscript", "listing", "template",
 ];
 const MATH_NAMES: &[&str] = &["math", "mi", "mrow", "mo"];
 const SVG_NAMES: &[&str] = &["svg", "g", "circle", "path"];
@@ -658,10 +658,10 @@ impl Monitor for C19 {
         vec![Stream::new("forced", forced().len() as u64 * 3), Stream::new("single-nodes", 600), Stream::new("html-trees", scaled(n, budget))]
     }
     fn rule(&self) -> String {
-        "trees mixing HTML element names in lower / upper / mixed case (void, phrasing, formatted, unknown) in no namespace, the real XHTML namespace (default and prefixed; ~15 % of the trees), MathML, SVG (several siblings, nesting, declared as default / under a prefix / not at all) and a foreign namespace; hostile text and attribute content; text directly under a document; fragments; every kind of single detached node; with and without indentation, suppress list and CDATA-section elements. Every call under catch_unwind + watchdog; Ok output must start with the doctype and is read by an independent HTML tokenizer that is aligned with the tree: unprefixed / never self-closed / end tag unless void (HTML), unprefixed under an xmlns declaration (MathML, SVG), text decodes back (raw '<' or '&' only in script / style / requested CDATA), attribute values decode back (no raw '\"' or '&'), PI with '>' refused. Non-trivial = tree with >= 3 nodes; distinct by structural hash".into()
+        "trees (one in ten wrapped in 15-130 levels of block elements) mixing HTML element names in lower / upper / mixed case (void, phrasing, formatted, the HTML parser's raw-text / escapable names such as xmp, iframe, noembed, noframes, plaintext, noscript, unknown) in no namespace, the real XHTML namespace (default and prefixed; ~15 % of the trees), MathML, SVG (several siblings, nesting, declared as default / under a prefix / not at all) and a foreign namespace; hostile text and attribute content; text directly under a document; fragments; every kind of single detached node; with and without indentation, suppress list and CDATA-section elements. Every call under catch_unwind + watchdog; Ok output must start with the doctype and is read by an independent HTML tokenizer that is aligned with the tree: unprefixed / never self-closed / end tag unless void (HTML), unprefixed under an xmlns declaration (MathML, SVG), text decodes back (raw '<' or '&' only in script / style / requested CDATA), attribute values decode back (no raw '\"' or '&'), PI with '>' refused. Non-trivial = tree with >= 3 nodes; distinct by structural hash".into()
     }
     fn floors(&self, _tier: Tier) -> Vec<(&'static str, u64)> {
-        vec![("outputs_ok", 20_000), ("outputs_aligned_with_tree", 10_000), ("outputs_aligned.indented", 2_000), ("serialised.fragment", 500), ("serialised.detached-text", 50), ("refused.ProcessingInstructionGtInHtml", 500)]
+        vec![("outputs_ok", 20_000), ("outputs_aligned_with_tree", 10_000), ("outputs_aligned.indented", 2_000), ("serialised.fragment", 500), ("serialised.detached-text", 50), ("refused.ProcessingInstructionGtInHtml", 500), ("deep_chain_trees", 1_000)]
     }
     fn assumptions(&self) -> Vec<String> {
         vec![
@@ -709,6 +709,16 @@ impl Monitor for C19 {
                     }
                     _ => ANode::doc(vec![root]),
                 };
+                // deep unmixed nesting of block elements: indentation widths beyond any fixed buffer
+                let mut a = a;
+                if !crate::engine::legs_mode() && g.rng.chance(1, 10) {
+                    let depth = *g.rng.pick(&[15, 16, 17, 31, 32, 33, 34, 40, 64, 65, 66, 130]);
+                    let was_elem = a.kind == AKind::Elem;
+                    let mut d = if was_elem { ANode::doc(vec![a]) } else { a };
+                    wrap_deep(&mut d, &["div", "section", "ul"], depth);
+                    a = if was_elem { d.children.remove(0) } else { d };
+                    ctx.count("deep_chain_trees");
+                }
                 if a.count() >= 3 {
                     ctx.nontrivial(a.structural_hash());
                 }
